@@ -1,6 +1,7 @@
 // In-process replay driver: runs the *public* API of the crate under test (Cli::parse_from + jawk::go) with
 //  - stdin bytes taken from this process' stdin (optionally repeated for ever: ENDLESS=1),
 //  - separate stdout / stderr buffers,
+//  - WRITE_CHUNK=n: writers that take at most n bytes per write call (short writes),
 //  - an optional injected read failure at byte offset FAIL_READ_AT and write failure at byte offset FAIL_WRITE_AT,
 // and prints one machine-readable line per observable. No hook in the crate is needed.
 use clap::Parser;
@@ -22,7 +23,7 @@ impl Read for Src {
         buf[0] = self.data[self.pos]; self.pos += 1; self.pulled.fetch_add(1, Ordering::SeqCst); Ok(1)
     }
 }
-struct Sink { data: Vec<u8>, fail_at: Option<usize>, kind: std::io::ErrorKind }
+struct Sink { data: Vec<u8>, fail_at: Option<usize>, kind: std::io::ErrorKind, chunk: Option<usize> }
 impl Write for Sink {
     fn write(&mut self, buf: &[u8]) -> std::io::Result<usize> {
         if let Some(k) = self.fail_at {
@@ -32,7 +33,9 @@ impl Write for Sink {
             self.data.extend_from_slice(&buf[..n]);
             return Ok(n);
         }
-        self.data.extend_from_slice(buf); Ok(buf.len())
+        // WRITE_CHUNK=n: a writer that accepts at most n bytes per call (short writes are legal for io::Write::write)
+        let n = self.chunk.map(|c| c.min(buf.len())).unwrap_or(buf.len());
+        self.data.extend_from_slice(&buf[..n]); Ok(n)
     }
     fn flush(&mut self) -> std::io::Result<()> { Ok(()) }
 }
@@ -43,8 +46,8 @@ fn main() {
     let mut input = Vec::new(); std::io::stdin().read_to_end(&mut input).unwrap();
     let cli = match jawk::Cli::try_parse_from(args) { Ok(c) => c, Err(e) => { println!("result=cli-error {}", e.kind()); return; } };
     let kind = match std::env::var("FAIL_WRITE_KIND").as_deref() { Ok("brokenpipe") => std::io::ErrorKind::BrokenPipe, Ok("interrupted") => std::io::ErrorKind::Interrupted, Ok("wouldblock") => std::io::ErrorKind::WouldBlock, _ => std::io::ErrorKind::Other };
-    let out = Rc::new(RefCell::new(Sink { data: vec![], fail_at: envn("FAIL_WRITE_AT"), kind }));
-    let err = Rc::new(RefCell::new(Sink { data: vec![], fail_at: None, kind: std::io::ErrorKind::Other }));
+    let out = Rc::new(RefCell::new(Sink { data: vec![], fail_at: envn("FAIL_WRITE_AT"), kind, chunk: envn("WRITE_CHUNK") }));
+    let err = Rc::new(RefCell::new(Sink { data: vec![], fail_at: None, kind: std::io::ErrorKind::Other, chunk: envn("WRITE_CHUNK") }));
     let pulled = Arc::new(AtomicUsize::new(0)); let p2 = pulled.clone();
     let fail_at = envn("FAIL_READ_AT"); let endless = std::env::var("ENDLESS").is_ok(); let limit = envn("ENDLESS_LIMIT").unwrap_or(1_000_000);
     let r = std::panic::catch_unwind(std::panic::AssertUnwindSafe(|| {
